@@ -115,6 +115,8 @@ def gen(args) -> list:
                     return None
                 if cc < 0.3:
                     return rnd.choice([imin, imax, imin + 1, imax - 1])
+                if cc < 0.42:
+                    return rnd.randint(imin // proj.NPD + 5, imax // proj.NPD - 5) * proj.NPD + rnd.choice([0, 0, 0, 1, -1])     # (on or next to a midnight)
                 return rnd.randint(imin, imax) if cc < 0.7 else rnd.randint(-10**12, 10**12)
 
             s, e = rinst(), rinst()
